@@ -3,10 +3,13 @@
   The model runs with the lists regenerated from the source (`Gen/Auth.lean`), the concrete
   normalisations and the key-space machine as dispatch (database 0).
 
-  tables                         → preGate=<hexlist> guarded=<hexlist> unknown=<hexlist> allow=<name-hex>:<arm>|… default=<0|1> first=<0|1> names=<n> unreadable=<n> deferral=<absent|blocked-only|unknown>
+  tables                         → preGate=<hexlist> guarded=<hexlist> unknown=<hexlist> allow=<name-hex>:<arm>|… default=<0|1> first=<0|1> names=<n> unreadable=<n> deferral=<absent|blocked-only|unknown> cliRule=<if-given|always|unknown> idStart=<n> subIds=<n|n…>
   names                          → `|`-joined hex of Gen.allCommandNames
   unreadable                     → what the translator could not read (`.` = nothing), entries separated by ` ;; `
   reset <password-hex|none>      → ok                         (empty dataset, no connections)
+  config <cli-hexlist> <file-hexlist> → code=<hex|none> spec=<hex|none>   fresh server GIVEN these `--requirepass`/`--password` values and these
+                                   `requirepass` lines (in order): the password the code ends up with (Gen.cliPasswordRule) and the one the
+                                   Spec holds it to (a password given by any means is in force); the Spec verdicts use the latter
   accept <c>                     → state of c afterwards
   wake <c> | close <c> | drop <c> → state of c afterwards
   state <c>                      → connected|authenticated|blocked|closing|none
@@ -51,6 +54,8 @@ structure St where
   s : Srv := { password := none, conns := [], store := KS.emptyStore, subs := [], replicas := [], monitors := [] }
   /-- the Spec's own record: connections that presented exactly the password -/
   specAuthed : List Nat := []
+  /-- the Spec's own password: what the server was GIVEN (`Spec.configuredPassword`), whatever the code made of it -/
+  specPassword : Option Bytes := none
 
 def showState : Option CState → String
   | none => "none"
@@ -98,12 +103,12 @@ def splitSemi : List String → List (List String)
 
 /-- The property's oracle for one request of connection `c`. -/
 def specVerdict (st : St) (c : Nat) (req : Req) : String × Bool :=
-  if st.s.password.isNone ∨ c ∈ st.specAuthed then ("authenticated", false)
+  if st.specPassword.isNone ∨ c ∈ st.specAuthed then ("authenticated", false)
   else match req with
     | .cmd name args =>
       let n := Code.normFrame name
       if n = AUTH then
-        if Spec.authenticates st.s.password args then ("auth-ok", true) else ("auth-fail", false)
+        if Spec.authenticates st.specPassword args then ("auth-ok", true) else ("auth-fail", false)
       else if Spec.mayExecute true false n then ("harmless", false)
       else ("must-refuse", false)
     | _ => ("must-refuse", false)
@@ -116,7 +121,10 @@ def others (s : Srv) (c : Nat) : Srv := { s with conns := removeConn s.conns c }
 def unknownNames : List Bytes := Gen.preGateUnknownGuard.map fun p => nameBytes p.1
 
 /-- the translator could not read the source (`Gen.unreadable`): the tables are inert defaults, no prediction at all -/
-def blind : Bool := !Gen.unreadable.isEmpty
+def cliRule : Option CliRule :=
+  if Gen.cliPasswordRule = "if-given" then some .ifGiven else if Gen.cliPasswordRule = "always" then some .always else none
+
+def blind : Bool := !Gen.unreadable.isEmpty || cliRule.isNone || !Gen.passwordSourcesUnderstood
 
 def isUnknown : Req → Bool
   | .cmd name _ => blind || unknownNames.contains (Code.normLoop name)
@@ -127,7 +135,7 @@ def doFrame (st : St) (c : Nat) (req : Req) : St × String × String :=
   -- no prediction: the model state stays, the Spec's own record of who presented the password is kept up to date
   if isUnknown req then ({ st with specAuthed := if nowAuthed then c :: st.specAuthed else st.specAuthed }, "unknown", verdict) else
   let (s', r) := Code.processConnectionFrame tree disp st.s c req
-  ({ s := s', specAuthed := if nowAuthed then c :: st.specAuthed else st.specAuthed }, showClass r, verdict)
+  ({ st with s := s', specAuthed := if nowAuthed then c :: st.specAuthed else st.specAuthed }, showClass r, verdict)
 
 def step (st : St) (ws : List String) : St × String :=
   match ws with
@@ -135,14 +143,26 @@ def step (st : St) (ws : List String) : St × String :=
     (st, s!"preGate={hexList tree.preGate} guarded={hexList (Gen.preGateGuarded.map nameBytes)} unknown={hexList unknownNames} allow=" ++
       String.intercalate "|" (tree.allow.map fun p => toHex p.1 ++ ":" ++ showArm p.2) ++
       s!" default={if Gen.gateDefaultRefuses then 1 else 0} first={if Gen.gateIsFirst then 1 else 0} names={Gen.allCommandNames.length}" ++
-      s!" unreadable={Gen.unreadable.length} deferral={(Gen.deferral.splitOn ":").head!}")
+      s!" unreadable={Gen.unreadable.length + (if cliRule.isNone || !Gen.passwordSourcesUnderstood then 1 else 0)} deferral={(Gen.deferral.splitOn ":").head!}" ++
+      s!" cliRule={(Gen.cliPasswordRule.splitOn ":").head!} idStart={Gen.connIdStart} subIds=" ++
+      (if Gen.substituteConnIds.isEmpty then "." else String.intercalate "|" (Gen.substituteConnIds.map toString)))
   | ["names"] => (st, hexList (Gen.allCommandNames.map nameBytes))
   | ["unreadable"] => (st, if Gen.unreadable.isEmpty && Gen.preGateUnknownGuard.isEmpty then "." else
       String.intercalate " ;; " (Gen.unreadable ++ Gen.preGateUnknownGuard.map fun p => s!"preGate guard of {p.1}: {p.2}"))
   | ["reset", pw] =>
     match (if pw == "none" then some none else (ofHex pw).map some) with
-    | some p => ({ s := { password := p, conns := [], store := KS.emptyStore, subs := [], replicas := [], monitors := [] } }, "ok")
+    | some p => ({ s := { password := p, conns := [], store := KS.emptyStore, subs := [], replicas := [], monitors := [] }, specPassword := p }, "ok")
     | none => (st, "bad-op")
+  | ["config", cli, file] =>
+    -- a fresh server given these command-line passwords and these `requirepass` lines (in order)
+    match parseHexList cli, parseHexList file with
+    | some cli, some file =>
+      let p := Code.effectivePassword (cliRule.getD .ifGiven) cli file
+      let sp := Spec.configuredPassword cli file
+      ({ s := { password := p, conns := [], store := KS.emptyStore, subs := [], replicas := [], monitors := [] }, specPassword := sp },
+       (match p with | some b => "code=" ++ toHex b | none => "code=none") ++ " " ++
+       (match sp with | some b => "spec=" ++ toHex b | none => "spec=none"))
+    | _, _ => (st, "bad-op")
   | ["classify", n] =>
     match ofHex n with
     | some n => (st, if blind || unknownNames.contains (Code.normLoop n) then "unknown" else
